@@ -26,10 +26,12 @@ k) every MergePlan gets an output id of its own: the output_segment_id of each M
    (not a value remembered per chunk position or per level): plans over different input sets that share an output id write into one directory, replace each other's index entry and list the label twice.
 l) ZoneCursorLoader::load_all (the compactor's reader) processes every planned input or fails: no iteration of the loop over the input segments returns to the loop header without having walked
    that segment's zones (a `continue` on a load error merges the readable inputs only, and the hand-over then retires - and reclaims - the unreadable one as well).
+m) a read that planned with the old live list may still be running when the hand-over's reclaim removes the retired directories (nothing makes reclaim wait for readers); the loader must
+   then FAIL the read, not answer it: ColumnLoader::read_column_for_zone may not turn a load error into an empty column (rows with NULL cells / half the COUNT are returned as a normal answer).
 Not decided: content equality, behaviour after a crash inside a run, a read that re-loads a retired label between invalidation and reclaim.
 """
-FLOOR = 14
-REQUIRED = ["C05.a", "C05.b1", "C05.b2", "C05.b3", "C05.c", "C05.d", "C05.e", "C05.f", "C05.g", "C05.h", "C05.i", "C05.j", "C05.k", "C05.l"]
+FLOOR = 15
+REQUIRED = ["C05.a", "C05.b1", "C05.b2", "C05.b3", "C05.c", "C05.d", "C05.e", "C05.f", "C05.g", "C05.h", "C05.i", "C05.j", "C05.k", "C05.l", "C05.m"]
 
 
 def run(ctx):
@@ -429,3 +431,16 @@ def run(ctx):
             bad.append(("input-skipped", "load_all can move on to the next planned input without walking this segment's zones (e.g. on a load error): the merged output silently lacks that input, which the hand-over still retires", w))
         return bad
     ctx.run("C05.l", "K9 LOOP", "ZoneCursorLoader::load_all", "the compactor reads every planned input segment or fails", l_)
+
+    def m_(inst):
+        b = F.fn("ColumnLoader::read_column_for_zone")
+        ld = one(b, r"ColumnReader::load_for_zone_with_cache$")
+        inst.sites = [sp(b, ld.bb)]
+        # what happens to the Err of the load?
+        sw = [c_ for c_ in b.calls if not c_.cleanup and re.search(r"Result::(unwrap_or_else|unwrap_or|unwrap_or_default|ok)$|Result::map_or", c_.nname) and ld.dest and ld.dest[0] in wide_all(b, c_.args[0], partial=False)]
+        ret_is_result = "Result" in b.local_ty(0)
+        inst.sites.append("load result consumed by %s; function returns %s" % ([c_.nname.split("::")[-1] for c_ in sw] or "?/match", b.local_ty(0)[:60]))
+        if sw and not ret_is_result:
+            return [("load-error-becomes-values", "ColumnLoader::read_column_for_zone turns a failed column load (%s) into an empty column: a read that overlaps the reclaim of a retired segment answers with NULL cells / missing rows instead of failing" % sw[0].nname.split("::")[-1], None)]
+        return []
+    ctx.run("C05.m", "K4 EFFECT", "ColumnLoader::read_column_for_zone", "a column that cannot be loaded fails the read instead of becoming values", m_)
